@@ -163,18 +163,23 @@ func c16rRingCase(c *vlib.Case, run *vlib.Run) {
 			return false
 		}
 		if bufLen > 0 && n == 0 {
-			c.Violationf("ring-read-no-progress", "Read(len %d) with %d bytes queued returned 0 bytes and no error", bufLen, len(model))
-			return false
+			// (0, nil) is discouraged for an io.Reader, not forbidden; a reader that
+			// does it twice in a row for the same request can never be drained.
+			run.Count("ring_reads_without_progress", 1)
+			if n2, err2 := rb.Read(p); n2 == 0 && err2 == nil {
+				c.Violationf("ring-read-no-progress", "Read(len %d) with %d bytes queued returned (0, nil) twice in a row", bufLen, len(model))
+				return false
+			} else {
+				n, err = n2, err2
+				if err != nil || n > len(model) || n > bufLen || !bytes.Equal(p[:n], model[:n]) {
+					c.Violationf("ring-read-wrong-bytes", "Read(len %d) retried after (0, nil): n=%d err=%v with %d queued", bufLen, n, err, len(model))
+					return false
+				}
+			}
 		}
 		if !bytes.Equal(p[:n], model[:n]) {
 			c.Violationf("ring-read-wrong-bytes", "Read(len %d) with %d queued: %s", bufLen, len(model), c16rDiff(p[:n], model[:n]))
 			return false
-		}
-		for i := n; i < bufLen; i++ {
-			if p[i] != 0xCC {
-				c.Violationf("ring-read-wrote-past-n", "Read returned n=%d but changed p[%d]", n, i)
-				return false
-			}
 		}
 		run.Count("ring_bytes_read_and_compared", int64(n))
 		if n < len(model) && n < bufLen {
